@@ -109,6 +109,22 @@ def gen_scenario(r, good_only=False):
     return raws + ["begin"], ops
 
 
+def big_keys(n):
+    return [i.to_bytes(2, "big") + bytes([0x55]) * 46 for i in range(n)]
+
+
+def big_store_raws(n, step=10):
+    """a store of 2n records (n keys, each with an attestation and a proposal record) whose values fall as the key
+    grows: whatever aliases a record with one further along the store's key order shows as a lowered value"""
+    raws = []
+    ks = big_keys(n)
+    for i, k in enumerate(ks):
+        s = 100000 - step * i
+        raws.append("raw %s %s" % ((k + b"\x02").hex(), (bytes([1]) + s.to_bytes(8, "little") + (s + 1).to_bytes(8, "little")).hex()))
+        raws.append("raw %s %s" % ((k + b"\x03").hex(), (bytes([1]) + (s + 7).to_bytes(8, "little")).hex()))
+    return raws, ks
+
+
 def parse_export(line):
     out = {}
     if not line.startswith("E"):
